@@ -75,7 +75,7 @@ func (gc *GopCacheMpegts) Clear() {
 func (gc *GopCacheMpegts) feedLastGop(b []byte) {
 	if !gc.isGopRingEmpty() {
 		gopPos := (gc.gopRingLast - 1 + gc.gopSize) % gc.gopSize
-		if gc.gopRing[gopPos].len() <= gc.singleGopMaxFrameNum || gc.singleGopMaxFrameNum == 0 {
+		if gc.gopRing[gopPos].len() < gc.singleGopMaxFrameNum || gc.singleGopMaxFrameNum == 0 {
 			gc.gopRing[gopPos].Feed(b)
 		}
 
